@@ -154,3 +154,61 @@ def shim():
 
 def real_torch():
     return _REAL['torch']
+
+
+class poison_uninit:
+    """real torch: torch.empty / empty_like / Tensor.new_empty return NaN-filled floating tensors while active - the allocator
+    stub of the replay: the contract of these calls is 'arbitrary contents', NaN is the arbitrary value that cannot be missed."""
+
+    def __enter__(self):
+        rt = real_torch()
+        self._saved = (rt.empty, rt.empty_like, rt.Tensor.new_empty)
+        e0, el0, ne0 = self._saved
+
+        def _poison(t):
+            if t.is_floating_point() and t.numel():
+                with rt.no_grad():
+                    t.fill_(float('nan'))
+            return t
+
+        def empty(*a, **k):
+            return _poison(e0(*a, **k))
+
+        def empty_like(*a, **k):
+            return _poison(el0(*a, **k))
+
+        def new_empty(self_, *a, **k):
+            return _poison(ne0(self_, *a, **k))
+        rt.empty, rt.empty_like, rt.Tensor.new_empty = empty, empty_like, new_empty
+        return self
+
+    def __exit__(self, *exc):
+        rt = real_torch()
+        rt.empty, rt.empty_like, rt.Tensor.new_empty = self._saved
+        return False
+
+
+def uninit_atoms(polys):
+    """atoms of never-written memory mentioned by the given polynomials (directly or through defined atoms)"""
+    from symtorch import poly as P, tensor as T
+    if not T.STATE.uninit:
+        return set()
+    hit = set(); seen = set()
+    todo = []
+    for p in polys:
+        if p is not None:
+            todo.extend(p.atoms())
+    while todo:
+        a = todo.pop()
+        if a in seen:
+            continue
+        seen.add(a)
+        if a in T.STATE.uninit:
+            hit.add(a)
+        k = P.ATOMS.kind[a]
+        if k in ('lin', 'opq', 'sqrt', 'inv', 'abs'):
+            todo.extend(P.ATOMS.info[a].atoms())
+        elif k == 'ite':
+            c, u, v = P.ATOMS.info[a]
+            todo.extend(u.atoms()); todo.extend(v.atoms())
+    return hit
